@@ -174,7 +174,8 @@ func rulesC06(r *Run) {
 	ruleContJoin(r, "R4", planMachine(r, "R4")) // a failing pre-check must end the scope Failed, not hang it in the drain of a channel nobody closes
 	ruleFixFailedGate(r, "R4", smKey("fixBlock"), "workflow.Block")
 	ruleFixFailedGate(r, "R4", smKey("fixPlan"), "workflow.Plan")
-	r.Expect("R4", 28)
+	ruleGroupsRunWhenPendingAll(r, "R4", "PreChecks")
+	r.Expect("R4", 30)
 }
 
 // ruleRunBypasses: runBypasses returns true only when Wait's error is nil, and the
@@ -358,7 +359,7 @@ func rulesC07(r *Run) {
 	}()
 	r.Kind("R1", "K3")
 	ruleRunContChecks(r, "R1")
-	r.Expect("R1", 3)
+	r.Expect("R1", 4)
 
 	r.Kind("R2", "K2")
 	rulePoll(r, "R2")
@@ -400,6 +401,8 @@ func rulesC07(r *Run) {
 		reach := m.reach("BlockPreChecks", avoid)
 		r.Check("R4", "entered-block-runs-deferred", posOfState(m, "BlockPreChecks"), !reach["BlockEnd"] && !reach["End"] && !reach["ExecuteBlock"], "once a block passed its bypass gate every path onward must pass BlockDeferredChecks; witness: %s", witnessAvoiding(m, "BlockPreChecks", avoid, "BlockEnd")+witnessAvoiding(m, "BlockPreChecks", avoid, "End"))
 	}
+	ruleGroupsRunWhenPendingAll(r, "R4", "PostChecks", "DeferredChecks") // a group that is present and has not run is run (mutation sweep)
+	ruleFixPlanCompletedOnlyIfChecksDone(r, "R4")
 	ruleGroupState(r, "R4", "BlockDeferredChecks", "workflow.Block", "DeferredChecks", "workflow.Block")
 	ruleGroupState(r, "R4", "PlanDeferredChecks", "workflow.Plan", "DeferredChecks", "")
 	ruleGroupState(r, "R4", "BlockPostChecks", "workflow.Block", "PostChecks", "workflow.Block")
@@ -549,6 +552,48 @@ func ruleRunContChecks(r *Run, rule string) {
 	r.Check(rule, "runContChecks:pass-never-waits-for-reader", pW, badWait == "", "%s", orOK(badWait, "a passing result is dropped rather than waited on"))
 	r.Check(rule, "runContChecks:stops-at-failure", pT, badStop == "", "%s", orOK(badStop, "a failed run ends the loop"))
 	r.Check(rule, "runContChecks:closes-channel", pC, badClose == "", "%s", orOK(badClose, "closed on every exit"))
+
+	// the loop ends when its context is done (mutation sweep): on every path — truncated prefixes included — the select case
+	// that received from ctx.Done() is followed by a return before the loop body is entered again. Otherwise the goroutine
+	// spins on the closed Done channel, never closes the result channel, and the state that drains it hangs.
+	badDone, nDone := "", 0
+	var pD token.Pos = fn.Decl.Pos()
+	all := append(append([]Path{}, paths...), fl.Truncated()...)
+	for i := range all {
+		p := &all[i]
+		for j, e := range p.Ev {
+			if e.Kind != EvSelect || !e.Taken {
+				continue
+			}
+			cc, ok := e.Clause.(*ast.CommClause)
+			if !ok || cc.Comm == nil || !strings.HasSuffix(ExprStr(commRecv(cc.Comm)), ".Done()") {
+				continue
+			}
+			nDone++
+			returned := false
+			for x := j + 1; x < len(p.Ev); x++ {
+				ev := p.Ev[x]
+				if ev.Deferred || ev.Depth > 0 {
+					continue
+				}
+				if ev.Kind == EvReturn {
+					returned = true
+					break
+				}
+				if ev.Kind == EvSelect || ev.Kind == EvCall && !strings.HasSuffix(CalleeKey(ev), ".Done") {
+					break // back in the loop
+				}
+			}
+			if !returned && badDone == "" {
+				badDone, pD = "after its context is done runContChecks goes round the loop again instead of returning: it never closes the result channel, and the state that drains that channel (BlockEnd, PlanPostChecks, End) hangs", e.Pos
+			}
+		}
+	}
+	if nDone == 0 {
+		r.Unresolved(rule, "runContChecks selects on ctx.Done()")
+	} else {
+		r.Check(rule, "runContChecks:returns-when-cancelled", pD, badDone == "", "%s", orOK(badDone, "ctx.Done ⇒ return"))
+	}
 }
 
 func rulePoll(r *Run, rule string) {
@@ -1150,14 +1195,18 @@ func rulesC09(r *Run) {
 	ruleIsCompleted(r, "R1")
 	ruleFilterCompaction(r, "R1") // a plan closed as Failed at start-up must not also be resumed
 	ruleSkipBlockIffTerminal(r, "R1")
-	r.Expect("R1", 12)
+	ruleLaunchLoopPassesFinished(r, "R1")
+	ruleExecSeqFailedReturnsError(r, "R1")
+	ruleRunnerStartSilentStop(r, "R1")
+	r.Expect("R1", 15)
 
 	r.Kind("R2", "K2")
 	ruleFixAction(r, "R2")
 	ruleFixNotStarted(r, "R2")
 	r.CallersWithin("R2", pkgSM+".resetAction", pkgSM+".fixAction", pkgSM+".fixChecks")
 	ruleRepairThenClassifyAll(r, "R2")
-	r.Expect("R2", 10)
+	ruleFixSeqVerdicts(r, "R2")
+	r.Expect("R2", 12)
 
 	r.Kind("R3", "K10")
 	for _, k := range []string{pkgSM + ".fixAction", pkgSM + ".fixChecks", pkgSM + ".fixSeq", smKey("fixBlock"), smKey("fixPlan")} {
@@ -2558,4 +2607,604 @@ func ruleMarksRunningAll(r *Run, rule string) {
 	ruleMarksRunning(r, rule, smKey("Start"), "workflow.Plan", nextIs("PlanBypassChecks"), "goes on to execute the plan")
 	ruleMarksRunning(r, rule, smKey("ExecuteBlock"), "workflow.Block", nextIs("BlockBypassChecks"), "enters the block")
 	ruleMarksRunning(r, rule, smKey("execSeq"), "workflow.Sequence", firstCall(smKey("runAction")), "runs the actions of the sequence")
+}
+
+// ruleGroupRunsWhenPending (mutation sweep, session 2): a check state runs its group whenever the group is present and has
+// not run yet. Assume "present ∧ NotStarted" and refute: every returning path of the state that stays possible calls
+// runChecksOnce on the group (or runPreChecks with the group as its pre-check argument). The rules that existed only
+// asked that the state *can* run its group; negating the skip guard of PlanDeferredChecks, or comparing the status of
+// a block's PreChecks the wrong way round, skipped the group for every ordinary plan and was silent.
+func ruleGroupRunsWhenPending(r *Run, rule, fnKey, owner, group string) {
+	fn := r.fnByKey(rule, fnKey)
+	if fn == nil {
+		return
+	}
+	fl, paths, ok := r.flowPaths(rule, fn)
+	if !ok {
+		return
+	}
+	info := fl.Info
+	isG := fieldMatcher(info, owner, group)
+	atom := groupAtoms(info, isG)
+	asg := groupAssume(true, "workflow.NotStarted")
+	bad := ""
+	var bpos token.Pos = fn.Decl.Pos()
+	n := 0
+	for i := range paths {
+		p := &paths[i]
+		if p.Exit != ExitReturn || PathRefuted(fl, p, -1, asg, atom) {
+			continue
+		}
+		n++
+		ran := false
+		for _, e := range p.Ev {
+			if e.Kind != EvCall || e.Call == nil || e.Deferred {
+				continue
+			}
+			if IsCall(e, smKey("runChecksOnce")) {
+				for _, a := range e.Call.Args {
+					if isG(ast.Unparen(a)) {
+						ran = true
+					}
+				}
+			}
+			if IsCall(e, smKey("runPreChecks")) && len(e.Call.Args) >= 2 && isG(ast.Unparen(e.Call.Args[1])) {
+				ran = true
+			}
+			if IsCall(e, smKey("runBypasses")) && len(e.Call.Args) >= 2 && isG(ast.Unparen(e.Call.Args[1])) {
+				ran = true
+			}
+		}
+		// post-checks are what a scope runs when everything else went well: a path on which the scope has already failed
+		// (it records a non-nil error in Data.err or marks the scope Failed) may leave them out. Deferred checks and
+		// pre-checks have no such excuse.
+		if !ran && group == "PostChecks" {
+			for j, e := range p.Ev {
+				if e.Kind != EvAssign || len(e.Lhs) != len(e.Rhs) {
+					continue
+				}
+				for k, l := range e.Lhs {
+					if _, m := FieldPath(info, l, "sm.Data", "err"); m && NilnessAt(info, p, j, e.Rhs[k]) != "nil" {
+						ran = true
+					}
+				}
+				if v, ok := StatusAssign(info, e, owner); ok && v == "workflow.Failed" {
+					ran = true
+				}
+			}
+		}
+		if !ran && bad == "" {
+			bad = "a path of " + ShortFn(fnKey) + " (successor " + nextOf(fl, p) + ", exit guard " + ExitGuardKey(fl, p) + ") is possible for a scope whose " + group + " are present and have not run, and does not run them"
+			for _, e := range p.Ev {
+				if e.Kind == EvReturn && !e.Deferred && e.Depth == 0 {
+					bpos = e.Pos
+				}
+			}
+		}
+	}
+	if n == 0 {
+		r.Unresolved(rule, ShortFn(fnKey)+" returning path for pending "+group)
+		return
+	}
+	r.Check(rule, ShortFn(fnKey)+":pending-"+group+"-always-run", bpos, bad == "", "%s", orOK(bad, "present ∧ NotStarted ⇒ the group is run on every path"))
+}
+
+func ruleGroupsRunWhenPendingAll(r *Run, rule string, which ...string) {
+	all := [][3]string{
+		{"PlanPreChecks", "workflow.Plan", "PreChecks"}, {"BlockPreChecks", "workflow.Block", "PreChecks"},
+		{"PlanPostChecks", "workflow.Plan", "PostChecks"}, {"BlockPostChecks", "workflow.Block", "PostChecks"},
+		{"PlanDeferredChecks", "workflow.Plan", "DeferredChecks"}, {"BlockDeferredChecks", "workflow.Block", "DeferredChecks"},
+	}
+	for _, a := range all {
+		if len(which) > 0 && !inSet(which, a[2]) {
+			continue
+		}
+		ruleGroupRunsWhenPending(r, rule, smKey(a[0]), a[1], a[2])
+	}
+}
+
+// ruleSelfLoopMakesProgress (mutation sweep): ExecuteBlock follows itself when the head block is already finished (after
+// recovery). On every path that takes this self-edge the queue of blocks shrinks — Data.blocks is assigned its tail or
+// nil — otherwise the machine spins on the same finished block for ever and the plan never ends.
+func ruleSelfLoopMakesProgress(r *Run, rule string) {
+	fn := r.fnByKey(rule, smKey("ExecuteBlock"))
+	if fn == nil {
+		return
+	}
+	fl, paths, ok := r.flowPaths(rule, fn)
+	if !ok {
+		return
+	}
+	info := fl.Info
+	bad := ""
+	n := 0
+	for i := range paths {
+		p := &paths[i]
+		if p.Exit != ExitReturn || nextOf(fl, p) != "ExecuteBlock" {
+			continue
+		}
+		n++
+		shrinks := false
+		for _, e := range p.Ev {
+			if e.Kind != EvAssign || len(e.Lhs) != len(e.Rhs) {
+				continue
+			}
+			for k, l := range e.Lhs {
+				if _, m := FieldPath(info, l, "sm.Data", "blocks"); !m {
+					continue
+				}
+				// what is assigned: in place, or every value a small helper can return (popBlock)
+				alts := r.P.Alternatives(info, e.Rhs[k], 0)
+				all := len(alts) > 0
+				for _, a := range alts {
+					rhs := ast.Unparen(a)
+					okA := ValueKey(info, rhs) == "nil"
+					if se, ok := rhs.(*ast.SliceExpr); ok && se.Low != nil {
+						if k, isC := ConstInt(info, se.Low); isC && k >= 1 {
+							okA = true
+						}
+					}
+					if !okA {
+						all = false
+					}
+				}
+				if all {
+					shrinks = true
+				}
+			}
+		}
+		if !shrinks && bad == "" {
+			bad = "a path of ExecuteBlock goes back to ExecuteBlock without removing the head block from Data.blocks (exit guard " + ExitGuardKey(fl, p) + "): the machine spins on the same block, the plan never ends"
+		}
+	}
+	if n == 0 {
+		r.Unresolved(rule, "ExecuteBlock path that follows itself")
+		return
+	}
+	r.Check(rule, "ExecuteBlock:self-loop-shrinks-the-queue", fn.Decl.Pos(), bad == "", "%s", orOK(bad, "the head block is removed on every self-edge"))
+}
+
+// ruleCancelStoredBack (mutation sweep): the cancel function of the block's continuous checks must end up where BlockEnd will
+// look for it. The head block is a struct VALUE in Data.blocks; BlockStartContChecks works on a copy, so on every path
+// that submits the continuous checks either the cancel function is assigned through Data.blocks[0] directly or the
+// modified copy is assigned back to Data.blocks[0]. Without it BlockEnd finds no cancel function, neither cancels nor
+// drains, and the continuous checks keep running — and writing — after the block and the plan have ended.
+func ruleCancelStoredBack(r *Run, rule string) {
+	fn := r.fnByKey(rule, smKey("BlockStartContChecks"))
+	if fn == nil {
+		return
+	}
+	fl, paths, ok := r.flowPaths(rule, fn)
+	if !ok {
+		return
+	}
+	info := fl.Info
+	bad := ""
+	n := 0
+	for i := range paths {
+		p := &paths[i]
+		if p.Exit != ExitReturn {
+			continue
+		}
+		submits := false
+		for _, e := range p.Ev {
+			if IsCall(e, keySubmit) || IsCall(e, keyGroupGo) || e.Kind == EvGo {
+				submits = true
+			}
+		}
+		if !submits {
+			continue
+		}
+		n++
+		var copyObj types.Object
+		stored := false
+		for _, e := range p.Ev {
+			if e.Kind != EvAssign {
+				continue
+			}
+			for k, l := range e.Lhs {
+				if sel, ok := ast.Unparen(l).(*ast.SelectorExpr); ok && sel.Sel.Name == "contCancel" {
+					if o := ObjOf(info, sel.X); o != nil {
+						if _, isPtr := o.Type().Underlying().(*types.Pointer); isPtr {
+							stored = true // through a pointer to the block in the queue
+						} else {
+							copyObj = o
+						}
+					} else if strings.Contains(ExprStr(sel.X), "blocks[") {
+						stored = true
+					}
+				}
+				if ix, ok := ast.Unparen(l).(*ast.IndexExpr); ok && len(e.Rhs) == len(e.Lhs) {
+					if _, m := FieldPath(info, ix.X, "sm.Data", "blocks"); m && copyObj != nil && ObjOf(info, e.Rhs[k]) == copyObj {
+						stored = true
+					}
+				}
+			}
+		}
+		if !stored && bad == "" {
+			bad = "a path of BlockStartContChecks starts the block's continuous checks but the cancel function stays in a local copy of the block (never assigned back to Data.blocks[0]; exit guard " + ExitGuardKey(fl, p) + "): BlockEnd finds contCancel nil, does not cancel or drain, the checks run on after the block and the plan have ended"
+		}
+	}
+	if n == 0 {
+		r.Unresolved(rule, "BlockStartContChecks path that submits the continuous checks")
+		return
+	}
+	r.Check(rule, "BlockStartContChecks:cancel-stored-in-the-queue", fn.Decl.Pos(), bad == "", "%s", orOK(bad, "the cancel function reaches Data.blocks[0] on every spawning path"))
+}
+
+// ruleLaunchLoopPassesFinished (mutation sweep): in the launch loop of ExecuteSequences a sequence that is already finished
+// (after recovery) is passed over and the loop goes on with the next one. Assume "sequence Completed" / "sequence Failed"
+// and look at the loop iterations that stay possible: they end at the loop header, never by leaving the loop or
+// returning — `break` instead of `continue` ended the block with its remaining sequences never started.
+func ruleLaunchLoopPassesFinished(r *Run, rule string) {
+	fn := r.fnByKey(rule, smKey("ExecuteSequences"))
+	if fn == nil {
+		return
+	}
+	fl, paths, ok := r.flowPaths(rule, fn)
+	if !ok {
+		return
+	}
+	info := fl.Info
+	var rs *ast.RangeStmt
+	ast.Inspect(fn.Decl.Body, func(x ast.Node) bool {
+		if l, ok := x.(*ast.RangeStmt); ok && rs == nil {
+			if _, m := FieldPath(info, l.X, "workflow.Block", "Sequences"); m {
+				// the launch loop, not the loop that pre-counts stored failures
+				launches := false
+				ast.Inspect(l.Body, func(y ast.Node) bool {
+					if c, ok := y.(*ast.CallExpr); ok {
+						if f, ok := calleeFunc(info, c); ok && FuncKey(f) == keyGroupGo {
+							launches = true
+						}
+					}
+					return !launches
+				})
+				if launches {
+					rs = l
+				}
+			}
+		}
+		return true
+	})
+	if rs == nil {
+		r.Unresolved(rule, "ExecuteSequences loop over the block's Sequences")
+		return
+	}
+	isStatus := func(x ast.Expr) bool {
+		b, m := FieldPath(info, x, "workflow.Sequence", "State", "Status")
+		return m && IsLoopElem(info, rs, ast.Unparen(b))
+	}
+	statuses := []string{"workflow.Completed", "workflow.Failed", "workflow.NotStarted", "workflow.Running", "workflow.Stopped"}
+	atom := func(e ast.Expr) (string, bool, bool) {
+		for _, st := range statuses {
+			if neg, ok := EqAtom(info, e, isStatus, st); ok {
+				return "st:" + st, neg, true
+			}
+		}
+		return "", false, false
+	}
+	bad := ""
+	var bpos token.Pos = rs.Pos()
+	n := 0
+	all := append(append([]Path{}, paths...), fl.Truncated()...)
+	for _, fin := range []string{"workflow.Completed", "workflow.Failed"} {
+		asg := map[string]bool{}
+		for _, st := range statuses {
+			asg["st:"+st] = st == fin
+		}
+		for i := range all {
+			p := &all[i]
+			for _, sg := range scanSegments(p, rs) {
+				if sg.end == "cut" || PathRefutedRange(fl, p, sg.from, sg.to, asg, atom) {
+					continue
+				}
+				// only iterations that actually tested the status are about this rule
+				tested := false
+				for j := sg.from; j < sg.to; j++ {
+					if p.Ev[j].Kind == EvBranch && p.Ev[j].Cond != nil {
+						ast.Inspect(p.Ev[j].Cond, func(y ast.Node) bool {
+							if x, ok := y.(ast.Expr); ok && isStatus(x) {
+								tested = true
+							}
+							return !tested
+						})
+					}
+				}
+				if !tested {
+					continue
+				}
+				n++
+				launched := false
+				for j := sg.from; j < sg.to; j++ {
+					if IsCall(p.Ev[j], keyGroupGo) {
+						launched = true
+					}
+				}
+				if sg.end != "next" && !launched && bad == "" {
+					bad = "an iteration of the launch loop that is possible for a sequence already " + strings.TrimPrefix(fin, "workflow.") + " ends with '" + sg.end + "' instead of going on with the next sequence: after a restart the sequences behind a finished one are never started and the block ends as if they had run"
+					bpos = p.Ev[sg.from-1].Pos
+				}
+			}
+		}
+	}
+	if n == 0 {
+		r.Unresolved(rule, "launch-loop iterations that test the sequence status")
+		return
+	}
+	r.Check(rule, "ExecuteSequences:finished-sequence-does-not-end-the-loop", bpos, bad == "", "%s", orOK(bad, "a finished sequence sends the loop on to the next one"))
+}
+
+// ruleFixSeqVerdicts (mutation sweep): fixSeq classifies a sequence caught Running by counting its actions by status. The
+// counters are recognised by the status case they are incremented under. On every path: the sequence is given the status
+// Completed only after the path established `<completed counter> == len(Actions)`; a path that established `<failed
+// counter> > 0` gives it Failed (swapping the constant, or dropping the assignment, made a sequence with a failed action
+// Completed — the failure no longer counts against the block's tolerance).
+func ruleFixSeqVerdicts(r *Run, rule string) {
+	fn := r.fnByKey(rule, pkgSM+".fixSeq")
+	if fn == nil {
+		return
+	}
+	fl, paths, ok := r.flowPaths(rule, fn)
+	if !ok {
+		return
+	}
+	paths = OwnOnly(paths)
+	info := fl.Info
+	// counters by the status case they are incremented under
+	counter := map[types.Object]string{}
+	ast.Inspect(fn.Decl.Body, func(x ast.Node) bool {
+		cc, ok := x.(*ast.CaseClause)
+		if !ok {
+			return true
+		}
+		st := ""
+		for _, v := range cc.List {
+			if k := ValueKey(info, v); strings.HasPrefix(k, "workflow.") {
+				st = k
+			}
+		}
+		if st == "" {
+			return true
+		}
+		for _, s := range cc.Body {
+			if id, ok := s.(*ast.IncDecStmt); ok && id.Tok == token.INC {
+				if o := ObjOf(info, id.X); o != nil {
+					counter[o] = st
+				}
+			}
+		}
+		return true
+	})
+	var failedC, completedC types.Object
+	for o, st := range counter {
+		switch st {
+		case "workflow.Failed":
+			failedC = o
+		case "workflow.Completed":
+			completedC = o
+		}
+	}
+	if failedC == nil || completedC == nil {
+		r.Unresolved(rule, "fixSeq counts its Failed and Completed actions")
+		return
+	}
+	mentions := func(e ast.Expr, o types.Object) bool { return mentionsObj(info, e, o) }
+	badF, badC := "", ""
+	var pF, pC token.Pos = fn.Decl.Pos(), fn.Decl.Pos()
+	nF, nC := 0, 0
+	for i := range paths {
+		p := &paths[i]
+		if p.Exit != ExitReturn {
+			continue
+		}
+		failedSeen, allCompleted := false, false
+		last := ""
+		var lastPos token.Pos
+		for _, e := range p.Ev {
+			if e.Kind == EvBranch && e.Cond != nil && e.Taken {
+				c := ast.Unparen(e.Cond)
+				if be, ok := c.(*ast.BinaryExpr); ok {
+					if be.Op == token.GTR && mentions(be.X, failedC) {
+						if k, isC := ConstInt(info, be.Y); isC && k == 0 {
+							failedSeen = true
+						}
+					}
+					if be.Op == token.EQL && mentions(be.X, completedC) && strings.HasPrefix(ExprStr(be.Y), "len(") {
+						allCompleted = true
+					}
+				}
+			}
+			if v, ok := StatusAssign(info, e, "workflow.Sequence"); ok {
+				last, lastPos = v, e.Pos
+			}
+		}
+		if failedSeen {
+			nF++
+			if last != "workflow.Failed" && badF == "" {
+				badF, pF = "on the path that established "+failedC.Name()+" > 0 the sequence is left "+orOK(strings.TrimPrefix(last, "workflow."), "Running")+": a sequence with a durably failed action is not recorded as Failed, its failure does not count against the tolerance of the block", fn.Decl.Pos()
+				if lastPos.IsValid() {
+					pF = lastPos
+				}
+			}
+		}
+		if last == "workflow.Completed" {
+			nC++
+			if !allCompleted && badC == "" {
+				badC, pC = "the sequence is given the status Completed on a path that did not establish "+completedC.Name()+" == len(Actions) (exit guard "+ExitGuardKey(fl, p)+")", lastPos
+			}
+		}
+	}
+	if nF == 0 || nC == 0 {
+		r.Unresolved(rule, "fixSeq paths for failed / all-completed actions")
+		return
+	}
+	r.Check(rule, "fixSeq:failed-action-fails-the-sequence", pF, badF == "", "%s", orOK(badF, "failed > 0 ⇒ Failed"))
+	r.Check(rule, "fixSeq:completed-only-if-every-action-completed", pC, badC == "", "%s", orOK(badC, "Completed ⇒ completed == len(Actions)"))
+}
+
+// ruleFixPlanCompletedOnlyIfChecksDone (mutation sweep): recovery declares a plan Completed — and thereby sends it straight to
+// End — only if its PostChecks and its DeferredChecks are both absent or Completed. Assume "G present ∧ NotStarted" for
+// each of the two and refute: no path that stays possible assigns Completed to the plan (`&&` → `||` completed a plan
+// whose deferred checks had never run).
+func ruleFixPlanCompletedOnlyIfChecksDone(r *Run, rule string) {
+	fn := r.fnByKey(rule, smKey("fixPlan"))
+	if fn == nil {
+		return
+	}
+	fl, paths, ok := r.flowPaths(rule, fn)
+	if !ok {
+		return
+	}
+	paths = fl.OwnOnly(paths)
+	info := fl.Info
+	var subj types.Object
+	if ps := fn.Decl.Type.Params; ps != nil && len(ps.List) >= 1 && len(ps.List[len(ps.List)-1].Names) == 1 {
+		subj = info.ObjectOf(ps.List[len(ps.List)-1].Names[0])
+	}
+	for _, group := range []string{"PostChecks", "DeferredChecks"} {
+		isG := func(e ast.Expr) bool {
+			b, m := FieldPath(info, e, "workflow.Plan", group)
+			return m && (subj == nil || ObjOf(info, ast.Unparen(b)) == subj)
+		}
+		gAtom := groupAtoms(info, isG)
+		byAtom := groupAtoms(info, fieldMatcher(info, "workflow.Plan", "BypassChecks"))
+		atom := func(e ast.Expr) (string, bool, bool) {
+			if k, neg, ok := gAtom(e); ok {
+				return k, neg, ok
+			}
+			if k, neg, ok := byAtom(e); ok && (k == "st:workflow.Completed" || k == "absent-or-completed") {
+				return "bypass-completed", neg, true
+			}
+			return "", false, false
+		}
+		asg := groupAssume(true, "workflow.NotStarted")
+		asg["bypass-completed"] = false // a bypassed plan is Completed without its other groups, rightly
+		bad := ""
+		var bpos token.Pos = fn.Decl.Pos()
+		n := 0
+		for i := range paths {
+			p := &paths[i]
+			if p.Exit != ExitReturn || PathRefuted(fl, p, -1, asg, atom) {
+				continue
+			}
+			n++
+			for _, e := range p.Ev {
+				if v, ok := StatusAssign(info, e, "workflow.Plan"); ok && v == "workflow.Completed" && bad == "" {
+					bad, bpos = "a path of fixPlan is possible for a plan whose "+group+" are present and have not run, and declares the plan Completed (exit guard "+ExitGuardKey(fl, p)+"): Recovery sends it to End, the "+group+" never run", e.Pos
+				}
+			}
+		}
+		if n == 0 {
+			r.Unresolved(rule, "fixPlan returning path for pending "+group)
+			continue
+		}
+		r.Check(rule, "fixPlan:completed-only-with-"+group+"-done", bpos, bad == "", "%s", orOK(bad, "pending "+group+" ⇒ the plan is not declared Completed"))
+	}
+}
+
+// ruleExecSeqFailedReturnsError (mutation sweep): execSeq answers for a sequence that is already Failed with an error — the
+// one recorded for an action the path established to be Failed, or a fresh one. Returning the last attempt's error of
+// some other action hands back nil (or indexes an empty attempt list): the launcher then counts the failed sequence as
+// a success.
+func ruleExecSeqFailedReturnsError(r *Run, rule string) {
+	fn := r.fnByKey(rule, smKey("execSeq"))
+	if fn == nil {
+		return
+	}
+	fl, paths, ok := r.flowPaths(rule, fn)
+	if !ok {
+		return
+	}
+	paths = OwnOnly(paths)
+	info := fl.Info
+	bad := ""
+	var bpos token.Pos = fn.Decl.Pos()
+	n := 0
+	for i := range paths {
+		p := &paths[i]
+		if p.Exit != ExitReturn {
+			continue
+		}
+		seqFailed := false
+		var failedAction types.Object
+		for j, e := range p.Ev {
+			if st, ok := statusTest(info, e, "workflow.Sequence"); ok && st == "workflow.Failed" && e.Taken {
+				seqFailed = true
+			}
+			if seqFailed {
+				for _, l := range EventLiterals(info, e) {
+					if b, m := FieldPath(info, l.X, "workflow.Action", "State", "Status"); m && l.Val == "workflow.Failed" && l.Eq {
+						failedAction = ObjOf(info, ast.Unparen(b))
+					}
+				}
+			}
+			if !seqFailed || e.Kind != EvReturn || e.Deferred || len(e.Rhs) != 1 {
+				continue
+			}
+			n++
+			res := e.Rhs[0]
+			okR := freshNonNil(info, res) || NilnessAt(info, p, j, res) == "nonnil"
+			if !okR && failedAction != nil && mentionsObj(info, res, failedAction) {
+				okR = true
+			}
+			if !okR && bad == "" {
+				bad, bpos = "for a sequence that is already Failed execSeq returns "+ExprStr(res)+", which is neither a fresh error nor the error of an action the path established to be Failed: it can be nil, and the failed sequence then counts as a success", e.Pos
+			}
+		}
+	}
+	if n == 0 {
+		r.Unresolved(rule, "execSeq return for an already Failed sequence")
+		return
+	}
+	r.Check(rule, "execSeq:failed-sequence-returns-its-failure", bpos, bad == "", "%s", orOK(bad, "the error of a Failed action, or a fresh one"))
+}
+
+// ruleRunnerStartSilentStop (mutation sweep): the action machine may stop in Start without an error only for an action the
+// path established to be Completed or Failed (runAction reports those itself). Any other silent stop — a recovered
+// Running action whose successor was dropped, an unsupported status whose error was dropped — makes runAction answer
+// nil for an action that never ran: the sequence goes on to the next action.
+func ruleRunnerStartSilentStop(r *Run, rule string) {
+	fn := r.fnByKey(rule, actKey("Runner.Start"))
+	if fn == nil {
+		return
+	}
+	fl, paths, ok := r.flowPaths(rule, fn)
+	if !ok {
+		return
+	}
+	info := fl.Info
+	bad := ""
+	var bpos token.Pos = fn.Decl.Pos()
+	n := 0
+	for i := range paths {
+		p := &paths[i]
+		if p.Exit != ExitReturn {
+			continue
+		}
+		next, errSet, _ := PathNext(fl, p)
+		if next != "nil" || errSet {
+			continue
+		}
+		n++
+		terminal := false
+		for _, e := range p.Ev {
+			if st, ok := statusTest(info, e, "workflow.Action"); ok && e.Taken && (st == "workflow.Completed" || st == "workflow.Failed") {
+				terminal = true
+			}
+		}
+		if !terminal && bad == "" {
+			bad = "a path of Runner.Start stops the action machine with neither a successor nor an error although it did not establish that the action is Completed or Failed (exit guard " + ExitGuardKey(fl, p) + "): runAction answers nil for an action that never ran"
+			for _, e := range p.Ev {
+				if e.Kind == EvReturn && !e.Deferred {
+					bpos = e.Pos
+				}
+			}
+		}
+	}
+	if n == 0 {
+		r.Unresolved(rule, "Runner.Start path that stops without an error")
+		return
+	}
+	r.Check(rule, "Runner.Start:silent-stop-only-for-finished-actions", bpos, bad == "", "%s", orOK(bad, "stops silently only for Completed/Failed"))
 }
